@@ -197,7 +197,13 @@ func HarnessC11Repeat() {
 					svAssume(i > 0 && content[i-1] == '\r')
 				}
 			}
-			srv := hxNewSrv([]string{"8BITMIME"})
+			// the server may or may not offer 8BITMIME: what it commits is the same
+			// rendering (or the message is refused locally, which is no render)
+			caps := []string{"8BITMIME"}
+			if svPick("server-offers-8bitmime", svParam("capsets", 2)) == 1 {
+				caps = []string{"PIPELINING"}
+			}
+			srv := hxNewSrv(caps)
 			srv.onlyOK = true
 			cl := hxNewClient(srv)
 			if derr := cl.DialWithContext(context.Background()); derr != nil {
@@ -205,7 +211,12 @@ func HarnessC11Repeat() {
 				return
 			}
 			err = cl.Send(m)
-			if err == nil {
+			if err != nil && len(caps[0]) != 8 && len(srv.commits) == 0 {
+				svReach("send-refused-without-8bitmime")
+				ok = false
+				err = nil
+			}
+			if err == nil && ok {
 				svAssert(len(srv.commits) == 1, "[Send] number of committed messages")
 				if len(srv.commits) != 1 {
 					return
